@@ -18,6 +18,7 @@ void ir_throw(void) { __CPROVER_assert(0, "vassert L0 C++ exception thrown (woul
 #endif
 void vstl_capacity_exceeded(void) { __CPROVER_assume(0); }
 void vstl_length_error(void) { ir_throw(); }
+void vstl_oob(void) { __CPROVER_assert(0, "vassert L0 container index out of range (heap out-of-bounds access in the real code)"); __CPROVER_assume(0); }
 #ifndef VSTL_ACCESS_HOOK
 void vstl_access(uint8_t* c) { (void)c; }
 #endif
